@@ -11,9 +11,10 @@ KEY_KINDS = ["float", "int", "bool", "str", "strlong", "date", "datetime", "time
 UINT_KINDS = ["uint8", "uint64"]
 NAMES = ["a", "b", "c", "d", "e"]
 # column names a file or another library may bring: not in Unicode normal form (superscripts, the micro sign, ligatures,
-# compatibility letters, decomposed accents), next to their normalised look-alikes; with spaces; not identifiers
-ODD_NAMES = ["area_m\u00b2", "area_m2", "dose_\u00b5g", "dose_\u03bcg", "temp_\u2103", "\ufb01eld", "e\u0301te\u0301", "\u00e9t\u00e9", "\uff57ide", "a b", "2nd", "\u212b"]
-ODD_NAMES_LATIN1 = ["area_m\u00b2", "area_m2", "dose_\u00b5g", "\u00e9t\u00e9", "a b", "2nd"]
+# compatibility letters, decomposed accents), next to their normalised look-alikes; with spaces; not identifiers; and names
+# that are also attributes of every dict (`values`, `items`, `keys`, `copy`): data names, looked up by key
+ODD_NAMES = ["values", "items", "keys", "copy", "area_m\u00b2", "area_m2", "dose_\u00b5g", "dose_\u03bcg", "temp_\u2103", "\ufb01eld", "e\u0301te\u0301", "\u00e9t\u00e9", "\uff57ide", "a b", "2nd", "\u212b"]
+ODD_NAMES_LATIN1 = ["values", "items", "keys", "area_m\u00b2", "area_m2", "dose_\u00b5g", "\u00e9t\u00e9", "a b", "2nd"]
 
 
 def odd_names(rng, spec, latin1=False, p=0.3):
